@@ -961,6 +961,10 @@ func (client *client) subscribeHandler(sub *packets.Subscribe) *codes.Error {
 					if !sub.RetainAsPublished {
 						v.Retained = false
 					}
+					// the retained message is sent because of this subscription: it carries its identifier [MQTT-3.3.4-3]
+					if subID != 0 {
+						v.SubscriptionIdentifier = []uint32{subID}
+					}
 					var expiry time.Time
 					if v.MessageExpiry != 0 {
 						expiry = now.Add(time.Second * time.Duration(v.MessageExpiry))
